@@ -269,7 +269,7 @@ BOUNDS = {
     "quick": ["two pairwise alignments to one reference; reference length 1..2 (symbolic); each row has at most ONE gap run; gap lengths are shard keys (reference row 0..2, at most one non-reference row gapped, length 0..2); all gap positions symbolic inside the sequences",
               "bounded small integers because the code keys dicts by position (CrossHair must pick concrete keys)"],
 }
-BOUNDS["thorough"] = ["reference length 1..3, reference-row gap lengths up to 3, other-row lengths 0..2 each, one order of the two (interchangeable) pairwise alignments, total gap length <= 6 (many shards need > 10 min each: this tier is sized in hours)"]
+BOUNDS["thorough"] = ["reference length 1..3, reference-row gap lengths up to 3, other-row lengths 0..2 each, one order of the two (interchangeable) pairwise alignments, total gap length <= 6; shards in which all four rows carry a gap are OPTIONAL (about 30 000 paths each, not exhausted within 30 min when measured: attempted for 15 min, reported, never counted)"]
 ASSUMPTIONS = [
     "inputs are valid pairwise alignments: equal row lengths, no column that is a gap in both rows",
     "the composition of the helper functions reproduces pairwise_to_multiple (validated each run against the real function on concrete alignments); Alignment construction / to_type at the end is outside",
@@ -305,12 +305,15 @@ def obligations(tier):
                         continue  # thorough: total gap length <= 6 (the largest shards need > 30 min each)
                     args = {"rl1": rl1, "rl2": rl2, "sl1": sl1, "sl2": sl2, "RLMAX": 3 if T else 2}
                     tag = f"ref{rl1}_{rl2}/other{sl1}_{sl2}"
+                    # all four rows gapped: ~30 000 paths, not exhausted within 30 min (measured) -> attempted, reported, not counted
+                    heavy = bool(rl1 and rl2 and sl1 and sl2)
+                    to = 900 if heavy else 1800
                     if max(sl1, sl2) >= 2 and max(rl1, rl2) >= 1:
                         # a gap run of length >= 2 has an interior: the recorded finding is possible here.
-                        obs.append(Ob(f"merge/{tag}", __name__, "mk", args, timeout=1800, group="merge", expect_known=KNOWN_KEY))
-                        obs.append(Ob(f"merge_excl_known/{tag}", __name__, "mk", dict(args, exclude_known=True), timeout=1800, group="merge"))
+                        obs.append(Ob(f"merge/{tag}", __name__, "mk", args, timeout=to, group="merge", expect_known=KNOWN_KEY, optional=heavy))
+                        obs.append(Ob(f"merge_excl_known/{tag}", __name__, "mk", dict(args, exclude_known=True), timeout=to, group="merge", optional=heavy))
                     else:
-                        obs.append(Ob(f"merge/{tag}", __name__, "mk", args, timeout=1800, group="merge"))
+                        obs.append(Ob(f"merge/{tag}", __name__, "mk", args, timeout=to, group="merge", optional=heavy))
     return obs
 
 
